@@ -15,8 +15,8 @@ int main(int argc, char** argv) {
         // a response built through the API with one record of each of the witness types (W_type[i]; default A then AAAA then TXT),
         // serialized and parsed: answers() must give back each record's own data
         struct { uint16_t t; const char* data; } known[] = { {DNS::A, "1.2.3.4"}, {DNS::AAAA, "2001:db8::1"}, {DNS::NS, "ns.example.com"}, {DNS::CNAME, "c.example.com"},
-            {DNS::PTR, "p.example.com"}, {DNS::MX, "mx.example.com"}, {DNS::TXT, "\x05hello"} };
-        static const uint16_t dflt[3] = { DNS::A, DNS::AAAA, DNS::TXT };
+            {DNS::PTR, "p.example.com"}, {DNS::MX, "mx.example.com"}, {DNS::TXT, "\x05hello"}, {DNS::DNAM, "d.example.com"} };
+        uint16_t dflt[3] = { DNS::A, DNS::AAAA, DNS::TXT };
         DNS d; d.type(DNS::RESPONSE);
         std::vector<std::string> want;
         for (int i = 0; i < 3; ++i) {
@@ -29,8 +29,9 @@ int main(int argc, char** argv) {
             want.push_back(data);
         }
         std::vector<uint8_t> y = d.serialize();
-        DNS q(y.data(), (uint32_t)y.size());
-        DNS::resources_type got = q.answers();
+        DNS::resources_type got;
+        try { DNS q(y.data(), (uint32_t)y.size()); got = q.answers(); }
+        catch (const exception_base& e) { printf("DEFECT: the serialization of the API-built records does not parse back: %s (a record type whose data the parser reads as a domain name but the editor stores as text)\n", e.what()); return 1; }
         if (got.size() != want.size()) { printf("DEFECT: %zu records parsed, %zu written\n", got.size(), want.size()); return 1; }
         size_t i = 0;
         for (const auto& a : got) {
@@ -58,6 +59,38 @@ int main(int argc, char** argv) {
             if (qs.front().dname() != want || qs.front().query_type() != DNS::A || as.front().dname() != want || as.front().data() != "1.2.3.4") { printf("DEFECT: the records do not come back as inserted\n"); return 1; }
         } catch (const exception_base& e) { printf("DEFECT: \"%s\": the serialization of the API-built message does not parse: %s\n", name.c_str(), e.what()); return 1; }
         return 0;
+    }
+    if (r.str("unit") == "dns.name_fields_agreement") {
+        // (1) a parsed response whose ADDITIONAL section holds an SOA record with a compressed primary-server name that points into the
+        //     AUTHORITY section; add_answer() shifts both sections: the SOA must keep naming ns1.example.org
+        // (2) a DNAME record built through the API must come back through the wire
+        std::vector<uint8_t> m = {0x12,0x34, 0x81,0x80, 0,1, 0,0, 0,1, 0,1};
+        auto name = [&](const char* s){ const char* p = s; while (*p) { const char* d = strchr(p, '.'); size_t n = d ? (size_t)(d - p) : strlen(p); m.push_back((uint8_t)n); m.insert(m.end(), p, p + n); p += n + (d ? 1 : 0); } m.push_back(0); };
+        name("example.com"); m.insert(m.end(), {0,1, 0,1});
+        size_t auth = m.size(); name("ns1.example.org"); m.insert(m.end(), {0,1, 0,1, 0,0,0,60, 0,4, 1,2,3,4});
+        m.insert(m.end(), {0xc0, 12}); m.insert(m.end(), {0,6, 0,1, 0,0,0,60});
+        size_t rdlen_at = m.size(); m.insert(m.end(), {0,0}); size_t rd = m.size();
+        m.insert(m.end(), {0xc0, (uint8_t)auth}); name("admin.example.com");
+        for (int i = 0; i < 5; ++i) m.insert(m.end(), {0,0,0,(uint8_t)(i + 1)});
+        m[rdlen_at + 1] = (uint8_t)(m.size() - rd);
+        try {
+            DNS d(m.data(), (uint32_t)m.size());
+            std::string before = d.additional().front().data();
+            d.add_answer(DNS::resource("zz.example.net", "5.6.7.8", DNS::A, DNS::INTERNET, 9));
+            std::vector<uint8_t> y = d.serialize(); DNS q(y.data(), (uint32_t)y.size());
+            std::string after = q.additional().front().data();
+            auto show = [](const std::string& s){ std::string o; for (unsigned char c : s) o += (c >= 32 && c < 127) ? (char)c : '.'; return o; };
+            printf("SOA data before the insertion: %s\nSOA data after add_answer:     %s\n", show(before).c_str(), show(after).c_str());
+            if (before != after) { printf("DEFECT: the compressed primary-server name of the SOA record designates another name after the insertion (update_records does not relocate the names inside SOA data)\n"); ++bad; }
+        } catch (const exception_base& e) { printf("DEFECT: SOA scenario throws %s\n", e.what()); ++bad; }
+        try {
+            DNS d; d.type(DNS::RESPONSE); d.add_answer(DNS::resource("old.example.com", "new.example.com", DNS::DNAM, DNS::INTERNET, 60));
+            std::vector<uint8_t> y = d.serialize(); DNS q(y.data(), (uint32_t)y.size());
+            std::string got = q.answers().front().data();
+            printf("DNAME target read back: %s\n", got.c_str());
+            if (got != "new.example.com") { printf("DEFECT: the DNAME target does not come back\n"); ++bad; }
+        } catch (const exception_base& e) { printf("DEFECT: a DNAME record built through the API does not parse back: %s (the parser reads its data as a domain name, the editor stored text)\n", e.what()); ++bad; }
+        return bad ? 1 : 0;
     }
     if (r.str("unit") == "dns.update_records_bounds") {
         // the witness record area (W_b0.., as many octets as the witness names, at most 18) as the authority section of a message
